@@ -1,4 +1,5 @@
 """first-order part of C05: bounds move monotonically inwards, groundings never disappear"""
+from common import size
 import streams
 from checks._folcommon import tabs_of, is_inference, monotone
 
@@ -18,7 +19,7 @@ def oracle(rec):
 
 
 def run(rep, tier, seed):
-    n = 100 if tier == "quick" else 2000
+    n = size(tier, 100, 2000)
     for name, quant in (("fol-qf", False), ("quant", True)):
         progs = [streams.gen_fol_program(seed + 5, k, quant=quant, crossed_p=0.1) for k in range(n)]
         recs, first = streams.run_fol_stream(rep, name, progs, {"tables", "reported", "contra"})
